@@ -166,13 +166,17 @@ def setParts (f : Int → Int) (w : World RankState) : World RankState :=
 /-! ## well-formedness the harness (and the driver) require of an op's world -/
 
 /-- per rank: distinct non-negative globals below `n_global`, parts in range, every cell vertex stored, cell
-    vertices pairwise distinct; across ranks: all copies of a global carry the same (new) part -/
+    vertices pairwise distinct; across ranks: all copies of a global carry the same (new) part — except for globals
+    that no cell of any rank references (such a vertex never becomes a ghost, so disagreeing copies cannot leave a
+    rank waiting for an owner that does not store it) -/
 def worldOk (w : World RankState) : Bool :=
   partsInRange w &&
   (w.all fun s =>
     nodupB (s.nodes.map (·.glob)) &&
     (s.nodes.all fun nd => decide (0 ≤ nd.glob) && decide (nd.glob < s.newN)) &&
     s.cells.all fun c => nodupB c.nodes && c.nodes.all (hasGlob s.nodes)) &&
-  (w.all fun s => s.nodes.all fun nd => w.all fun t => t.nodes.all fun x => x.glob != nd.glob || x.part == nd.part)
+  (w.all fun s => s.nodes.all fun nd =>
+    (w.all fun t => t.nodes.all fun x => x.glob != nd.glob || x.part == nd.part) ||
+    !(w.any fun u => u.cells.any fun c => c.nodes.contains nd.glob))
 
 end Refine.Model.Shufflin
